@@ -30,7 +30,7 @@ class C01(Prop):
                 cfgops.append(G.op_newconfig(dir=r.choice([b"d1", b"def"]), fn=r.choice([None, b"shared", b"zz_verif_trace_test"]),
                                              ext=r.choice([None, b".txt"]), upd=r.choice([None, None, None, True])))
                 handles.append(1)
-            prog = G.gen_program(r, collide=collide, cr=cr, handles=handles)
+            prog = G.gen_program(r, collide=collide, cr=cr, handles=handles, names=G.MULTI_NAMES)
             if i % 97 == 0 and prog and prog[0][2]:
                 # a very long line (bufio.MaxScanTokenSize is 64 KiB)
                 prog[0][2][0] = {"op": "match", "api": "snap", "h": prog[0][1], "test": hx(prog[0][0]),
